@@ -84,6 +84,10 @@ impl StateMachine<'_> {
             self.painter.paint_buffered_minus_and_plus_lines();
             self.state = MergeConflict(merge_parents.clone(), Ours);
             self.painter.merge_conflict_commit_names[Ours] = Some(commit.to_string());
+            // The other names are those of this conflict, not of an earlier one (which may
+            // have had an ancestor section while this one has none).
+            self.painter.merge_conflict_commit_names[MergeConflictCommit::Ancestral] = None;
+            self.painter.merge_conflict_commit_names[MergeConflictCommit::Theirs] = None;
             true
         } else {
             false
